@@ -18,6 +18,7 @@ import (
 	"encoding/json"
 	"flag"
 	"fmt"
+	"hash/fnv"
 	"os"
 	"runtime/pprof"
 	"strings"
@@ -83,7 +84,11 @@ func watchdog(limit time.Duration) {
 					map[string]any{"call": what})
 				rep.Notes = append(rep.Notes, "run aborted by the watchdog")
 				_ = rep.Write(*outPath)
-				os.Exit(0)
+				// an aborted run is never a result: the runner treats the non-zero exit as a machinery failure and
+				// shows this text (the call and the input that did not return)
+				fmt.Fprintf(os.Stderr, "WATCHDOG: %s did not return within %s; input_hex=%s; run aborted (a hang of the code under test — property C06 — or of the harness)\n",
+					what, limit, lib.HexF(in))
+				os.Exit(4)
 			}
 		}
 	}
@@ -132,6 +137,44 @@ func trunc(in []byte) []byte {
 		return append(append([]byte{}, in[:100]...), append([]byte("…"), in[len(in)-80:]...)...)
 	}
 	return in
+}
+
+// distinctCase: 1 if this case (identified by the parts) has not been counted before, else 0. A 64-bit hash is
+// folded into a bit set (2^26 bits in the quick tier, 2^31 in the thorough tier); a collision counts as a
+// duplicate, so the number reported as distinct_nontrivial is a lower bound of the distinct cases.
+var (
+	distinctBits []uint64
+	distinctMask uint64
+	distinctOnce sync.Once
+)
+
+func distinctCase(parts ...[]byte) int64 {
+	distinctOnce.Do(func() {
+		n := uint64(1) << 26
+		if *tier == "thorough" {
+			n = 1 << 31
+		}
+		distinctBits = make([]uint64, n/64)
+		distinctMask = n - 1
+	})
+	h := fnv.New64a()
+	for _, p := range parts {
+		h.Write(p)
+		h.Write([]byte{0})
+	}
+	k := h.Sum64()
+	k ^= k >> 33
+	k &= distinctMask
+	w, bit := &distinctBits[k/64], uint64(1)<<(k%64)
+	for {
+		old := atomic.LoadUint64(w)
+		if old&bit != 0 {
+			return 0
+		}
+		if atomic.CompareAndSwapUint64(w, old, old|bit) {
+			return 1
+		}
+	}
 }
 
 // add records a finding.
